@@ -619,6 +619,9 @@ func (r *Runner) mismatchViol(oracle string, m *Mismatch, extra string) {
 	if cross {
 		class += "/cross"
 	}
+	if extra == "" && r.Res.Counters["rounds.partial"] > 0 {
+		extra = "after-partial-compaction"
+	}
 	r.viol(oracle, class, extra, m.String()+" shape="+r.E.Shape().String())
 }
 
